@@ -866,8 +866,28 @@ func ComparisonExpr(query *Query, current Map, expr *sqlparser.ComparisonExpr, o
 				return false, INVALID_TYPE.Extend(fmt.Sprintf("failed to build `IN` expression. expected an array but found %T", right))
 			}
 			for _, value := range rightArray {
-				if leftValue == fmt.Sprintf("%v", value) {
-					return false, nil
+				switch value := value.(type) {
+				case Map:
+					{
+						for _, value := range value {
+							if v, ok := value.(*float64); ok {
+								value = *v
+							}
+							if compare.Compare(leftValue, value) == 0 {
+								return false, nil
+							}
+							break
+						}
+					}
+				default:
+					{
+						if v, ok := value.(*float64); ok {
+							value = *v
+						}
+						if compare.Compare(leftValue, value) == 0 {
+							return false, nil
+						}
+					}
 				}
 			}
 			return true, nil
